@@ -350,36 +350,72 @@ Definition merged_env (e : env) (s : session) : env_view :=
 (* the model's key table: context type |-> keys, each with how its value relates to URNs             *)
 
 Inductive key_class :=
-| KPlain        (* value expression does not mention a URN *)
-| KUrnSink      (* derived from a URN through ToXValue(env) / MapContext / Format(env) / FormatRunSummary(env,..) *)
-| KChannel.     (* derived from the URN list through channel resolution (PreferredChannel) *)
+| KPlain        (* value expression does not touch a URN *)
+| KUrnSink      (* derived from a URN only through ToXValue(env) / MapContext / Format(env) / FormatRunSummary(env,..)
+                   or through another context builder *)
+| KChannel      (* derived from the URN list through channel resolution (PreferredChannel) *)
+| KUrnRaw.      (* derived from a URN in any other way: nothing in the model corresponds to it *)
 
 Definition key_class_eqb (a b : key_class) : bool :=
-  match a, b with KPlain, KPlain | KUrnSink, KUrnSink | KChannel, KChannel => true | _, _ => false end.
+  match a, b with
+  | KPlain, KPlain | KUrnSink, KUrnSink | KChannel, KChannel | KUrnRaw, KUrnRaw => true
+  | _, _ => false
+  end.
 
+(* builder (as named by translators/cmd/contextkeys: package.Type.Method) |-> keys in alphabetical order.
+   "*" stands for dynamically keyed entries. *)
 Definition model_keys : list (string * list (string * key_class)) :=
-  [ ("Contact.Context",
+  [ ("flows.Contact.Context",
       [("__default__", KUrnSink); ("channel", KChannel); ("created_on", KPlain); ("fields", KPlain);
        ("first_name", KPlain); ("groups", KPlain); ("id", KPlain); ("language", KPlain);
        ("last_seen_on", KPlain); ("name", KPlain); ("status", KPlain); ("tickets", KPlain);
        ("timezone", KPlain); ("urn", KUrnSink); ("urns", KUrnSink); ("uuid", KPlain)]);
-    ("MsgInput.Context",
+    ("inputs.MsgInput.Context",
       [("__default__", KPlain); ("attachments", KPlain); ("channel", KPlain); ("created_on", KPlain);
        ("external_id", KPlain); ("text", KPlain); ("type", KPlain); ("urn", KUrnSink); ("uuid", KPlain)]);
-    ("relatedRunContext.Context",
+    ("runs.relatedRunContext.Context",
       [("__default__", KUrnSink); ("contact", KUrnSink); ("fields", KPlain); ("flow", KPlain);
        ("results", KPlain); ("run", KPlain); ("status", KPlain); ("urns", KUrnSink); ("uuid", KPlain)]);
-    ("run.Context",
+    ("runs.run.Context",
       [("__default__", KUrnSink); ("contact", KUrnSink); ("created_on", KPlain); ("exited_on", KPlain);
        ("flow", KPlain); ("path", KPlain); ("results", KPlain); ("status", KPlain); ("uuid", KPlain)]);
-    ("run.RootContext",
+    ("runs.run.RootContext",
       [("child", KUrnSink); ("contact", KUrnSink); ("fields", KPlain); ("globals", KPlain);
-       ("input", KPlain); ("legacy_extra", KPlain); ("node", KPlain); ("parent", KUrnSink);
-       ("results", KPlain); ("resume", KPlain); ("run", KPlain); ("ticket", KPlain); ("trigger", KPlain);
+       ("input", KUrnSink); ("legacy_extra", KPlain); ("node", KPlain); ("parent", KUrnSink);
+       ("results", KPlain); ("resume", KPlain); ("run", KUrnSink); ("ticket", KPlain); ("trigger", KPlain);
        ("urns", KUrnSink); ("webhook", KPlain)]);
-    ("URNList.MapContext", [("*", KUrnSink)]);
-    ("Channel.Context",
+    ("flows.URNList.MapContext", [("*", KUrnSink)]);
+    ("flows.Channel.Context",
       [("__default__", KPlain); ("address", KPlain); ("name", KPlain); ("uuid", KPlain)]) ].
+
+Fixpoint keys_eqb (a b : list (string * key_class)) : bool :=
+  match a, b with
+  | [], [] => true
+  | (k, c) :: a', (k', c') :: b' => String.eqb k k' && key_class_eqb c c' && keys_eqb a' b'
+  | _, _ => false
+  end.
+
+Fixpoint find_keys (ty : string) (t : list (string * list (string * key_class))) : option (list (string * key_class)) :=
+  match t with
+  | [] => None
+  | (ty', ks) :: rest => if String.eqb ty ty' then Some ks else find_keys ty rest
+  end.
+
+(* the obligation over the generated table src (gen/ContextKeys.v):
+   a builder the model transcribes has exactly the model's keys and classes; any other builder in the source is
+   URN-free (so the subtrees the model carries as given are built without touching a URN); every builder the
+   model transcribes still exists *)
+Definition keys_covered (src : list (string * list (string * key_class))) : bool :=
+  forallb (fun entry =>
+             match find_keys (fst entry) model_keys with
+             | Some ks => keys_eqb ks (snd entry)
+             | None => forallb (fun kc => key_class_eqb (snd kc) KPlain) (snd entry)
+             end) src
+  && forallb (fun entry => match find_keys (fst entry) src with Some _ => true | None => false end) model_keys.
+
+(* does the tree built by the model have, at every transcribed builder, exactly the keys of the table? *)
+Definition table_keys (ty : string) : list string :=
+  match find_keys ty model_keys with Some ks => map fst ks | None => [] end.
 
 (* keys of an object value, "__default__" first when present *)
 Definition xv_keys (v : xv) : list string :=
